@@ -67,8 +67,47 @@ template<class History, class OA, class IA> static void run(const char* hn, cons
     report(id + ".continuation", ta == tb, "C16,C08", "original=[" + ta + "] restored=[" + tb + "]");
   }
 }
+// a contained machine WITHOUT history and WITHOUT front-end data of its own: its active inner state, the data of its opt-in states and
+// whatever is nested below it must still round-trip ("the active state ids of every region at every nesting level", C16)
+struct PlainSub_ : state_machine_def<PlainSub_> {
+  struct P1 : state<> {};
+  struct P2 : state<> { typedef int do_serialize; int visits = 0; template<class Ar> void serialize(Ar& ar, const unsigned int){ ar & visits; }
+                        template<class E,class F> void on_entry(E const&,F&){ ++visits; } };
+  struct P3 : state<> {};
+  typedef P1 initial_state;
+  struct transition_table : mpl::vector< Row<P1,nxt,P2>, Row<P2,nxt,P3>, Row<P3,nxt,P1> > {};
+  template<class F,class Ev> void no_transition(Ev const&,F&,int){}
+};
+struct PlainRoot_;
+#if defined(CFG_back11)
+typedef msm::back11::state_machine<PlainSub_, msm::back11::state_machine<PlainRoot_>> PlainSub;
+#else
+typedef msm::back::state_machine<PlainSub_> PlainSub;
+#endif
+struct PlainRoot_ : state_machine_def<PlainRoot_> {
+  struct Idle : state<> {};
+  typedef Idle initial_state;
+  struct transition_table : mpl::vector< Row<Idle,enter,PlainSub>, Row<PlainSub,leave,Idle> > {};
+  template<class F,class Ev> void no_transition(Ev const&,F&,int){}
+};
+template<class OA, class IA> static void run_plain(const char* an) {
+  typedef BE<PlainRoot_> M;
+  for (int k = 0; k <= 3; ++k) {
+    M a; a.start(); a.process_event(enter()); for (int i = 0; i < k; ++i) a.process_event(nxt());
+    std::stringstream ss; { OA oa(ss); oa << a; }
+    M b; { IA ia(ss); ia >> b; }
+    PlainSub& sa = a.template get_state<PlainSub&>(); PlainSub& sb = b.template get_state<PlainSub&>();
+    const int va = sa.template get_state<PlainSub_::P2&>().visits, vb = sb.template get_state<PlainSub_::P2&>().visits;
+    bool same = a.current_state()[0] == b.current_state()[0] && sa.current_state()[0] == sb.current_state()[0] && va == vb;
+    a.process_event(nxt()); b.process_event(nxt());
+    same = same && sa.current_state()[0] == sb.current_state()[0];
+    report(std::string("plain-submachine-without-history.") + an + ".k" + std::to_string(k), same, "C16",
+           "inner saved=" + std::to_string(sa.current_state()[0]) + " loaded=" + std::to_string(sb.current_state()[0]) + " P2.visits " + std::to_string(va) + "/" + std::to_string(vb));
+  }
+}
 int main(int argc, char** argv) {
   if (argc > 1) g_only = argv[1];
+  run_plain<boost::archive::text_oarchive, boost::archive::text_iarchive>("text"); run_plain<boost::archive::binary_oarchive, boost::archive::binary_iarchive>("binary");
   typedef boost::archive::text_oarchive TO; typedef boost::archive::text_iarchive TI; typedef boost::archive::binary_oarchive BO; typedef boost::archive::binary_iarchive BI;
   run<msm::back::NoHistory, TO, TI>("nohistory", "text"); run<msm::back::AlwaysHistory, TO, TI>("always", "text");
   run<msm::back::ShallowHistory<mpl::vector<enter_h>>, TO, TI>("shallow", "text");
